@@ -257,8 +257,11 @@ def stereo_mol_graph_to_rdmol(
 
                 atoms_order = (a_stereo._inverted_atoms()
                                if a_stereo.parity == -1 else a_stereo.atoms)
-                rd_id_order = tuple([map_num_idx_dict[a]
-                                     for a in atoms_order[1::]])
+                # every ordering that denotes the same arrangement
+                rd_id_orders = {
+                    tuple([map_num_idx_dict[atoms_order[i]] for i in perm[1:]])
+                    for perm in a_stereo.PERMUTATION_GROUP
+                }
                 rd_nbr_order = tuple([nbr.GetIdx() for nbr in rd_atom.GetNeighbors()])
                 
                         # adapted from http://opensmiles.org/opensmiles.html
@@ -290,7 +293,7 @@ def stereo_mol_graph_to_rdmol(
                     rd_nbr_perm = tuple([rd_nbr_order[i] for i in perm])
                     rd_nbr_perm = tuple([rd_nbr_perm[i] for i in (0, 4, 1, 2, 3)])
 
-                    if rd_id_order == rd_nbr_perm:
+                    if rd_nbr_perm in rd_id_orders:
                         rd_atom.SetUnsignedProp("_chiralPermutation", val)
                         break
 
